@@ -21,8 +21,8 @@
    generated functions.
 
    dagger: translated (dagger_gen) and tied at run time by harness/c09.py (generated function against the
-   implementation, whole state, strict), but its equality with the hand model f_dagger is NOT proved
-   here; f_dagger stays hand-modelled + correspondence-tied. *)
+   implementation, whole state, strict), its equality with the hand model f_dagger is proved in
+   Proofs/DaggerGenProofs.v and stated in Props/C10e.v (C10_gen_dagger). *)
 From SV Require Import Base.Prelude Base.PyList Base.Sym Base.Tensor Gen.PhasePerm Gen.OpOrder Gen.PhasesGen
   Model.Sectors Model.Array Model.Arith Model.Fermi Model.Graded Proofs.FermiProofs Proofs.LazyProofs Proofs.ConjProofs
   Proofs.PhasesGenProofs.
